@@ -432,7 +432,8 @@ MANIFEST_META = {
                   "option, single-callable root) are encoded by the widget and decoded by a transcription of graph.js; every reachable "
                   "multivector must reproduce its coefficient on every blade, and signature / Cayley table / key2idx must describe the "
                   "algebra. Drag histories shaped as the front end sends them must overwrite exactly the stored coefficients of the "
-                  "dragged multivectors in place and re-evaluate dependent callables.",
+                  "dragged multivectors in place and re-evaluate dependent callables."
+                  " The coefficient container handed over by the user (list or ndarray) must itself be overwritten by a drag, not replaced.",
     "level_note": "The JavaScript front end is not executed (no JS engine, no network): its 12 lines of decoding are transcribed; this is "
                   "the stated trusted base together with kv.refalg.",
 }
